@@ -3,6 +3,7 @@ import RsomeV.Drv.ConeDual
 import RsomeV.Drv.Robust
 import RsomeV.Drv.Partition
 import RsomeV.Drv.Curv
+import RsomeV.Drv.NdArray
 open Lean
 namespace RsomeV.Drv
 /-- every operation of the line protocol -/
@@ -18,5 +19,15 @@ def dispatch (op : String) (j : Json) : Except String Json :=
   | "rule_lin" => opRuleLin j
   | "curv_chain" => opCurvChain j
   | "pw_chain" => opPwChain j
+  | "nd_ravel" => opNdRavel j
+  | "nd_unravel" => opNdUnravel j
+  | "nd_bcast" => opNdBcast j
+  | "nd_transpose" => opNdTranspose j
+  | "nd_swaplast" => opNdSwapLast j
+  | "nd_matmul" => opNdMatmul j
+  | "nd_slice" => opNdSlice j
+  | "nd_sum_axis" => opNdSumAxis j
+  | "nd_concat" => opNdConcat j
+  | "nd_diag" => opNdDiag j
   | _ => throw s!"unknown op {op}"
 end RsomeV.Drv
